@@ -26,7 +26,7 @@ import SlipVerif.Driver.Util
                              settings; the document as a parse entry point holds it then: m<hex> = time token)
    json native <J>           reply: ok <faithful T/F> <L> | ok <J> / err <class>
    json oflisp <L>           reply: ok <J> | err <class>
-   json simple <G>           reply: ok <gfaithful T/F> <L> | <G>
+   json simple <G>           reply: ok <gfaithful T/F> <L> | <G> | <gbag T/F> ok <J> / err <class>   (SimpleObject, Simplify of it, ObjectToBag of it)
 -/
 namespace SlipVerif.Driver.Json
 open SlipVerif.Json SlipVerif.Driver
@@ -448,7 +448,11 @@ def handle (entry : String) (args : List String) : String :=
     match decG n args with
     | some (g, []) =>
       let l := simpleObject g
-      "ok " ++ showBool (GFaithful g) ++ " " ++ join (encL l) ++ " | " ++ join (encG (simplify l))
+      let bagv := match ofLisp l with
+        | .ok j => "ok " ++ join (encJ j)
+        | .error e => showLErr e
+      "ok " ++ showBool (GFaithful g) ++ " " ++ join (encL l) ++ " | " ++ join (encG (simplify l)) ++ " | " ++
+        showBool (GBag g) ++ " " ++ bagv
     | _ => "bad-request go-value"
   | _ => "bad-request entry"
 
